@@ -255,11 +255,18 @@ impl Walrus {
                     continue;
                 }
             }
+            // WAL files are named by `now_millis_str()`, i.e. decimal digits only. Everything
+            // else in the directory (index and marker files, their `.tmp` leftovers from an
+            // interrupted persist, foreign files) is not WAL data and must not be scanned.
+            let is_wal_name = path
+                .file_name()
+                .and_then(|n| n.to_str())
+                .map(|n| !n.is_empty() && n.bytes().all(|b| b.is_ascii_digit()))
+                .unwrap_or(false);
+            if !is_wal_name {
+                continue;
+            }
             if let Some(s) = path.to_str() {
-                // skip index files
-                if s.ends_with("_index.db") {
-                    continue;
-                }
                 files.push(s.to_string());
             }
         }
@@ -285,8 +292,11 @@ impl Walrus {
             FileStateTracker::register_file_if_absent(file_path);
             debug_print!("[recovery] file {}", file_path);
 
+            // Never scan past the end of the file: a file whose creation was interrupted before
+            // it was extended to its full size has nothing (or less) to recover.
+            let scan_limit = (mmap.len() as u64).min(MAX_FILE_SIZE);
             let mut block_offset: u64 = 0;
-            while block_offset + DEFAULT_BLOCK_SIZE <= MAX_FILE_SIZE {
+            while block_offset + DEFAULT_BLOCK_SIZE <= scan_limit {
                 // heuristic: if first bytes are zero, assume no more blocks
                 let mut probe = [0u8; 8];
                 mmap.read(block_offset as usize, &mut probe);
